@@ -318,7 +318,7 @@ impl SubCheck for ColdUpload {
     fn strategy(&self, tier: Tier) -> BoxedStrategy<ColdCase> {
         let max = if tier == Tier::Thorough { 6 * 1024 * 1024 } else { 1_500_000u32 };
         let size = prop_oneof![2 => 1u32..70_000, 3 => 70_000u32..=max, 1 => Just(1_048_576u32)];
-        let up = (hs_strategy(), size, prop_oneof![2 => Just(0u16), 1 => 1u16..400]);
+        let up = (hs_strategy(), size, prop_oneof![3 => Just(0u16), 2 => 1u16..400, 1 => 800u16..1600]);
         (spec_strategy(None), proptest::collection::vec(up, 1..=8)).prop_map(|(spec, uploads)| ColdCase { spec, uploads }).boxed()
     }
     fn exec(&self, c: &ColdCase) -> Outcome {
